@@ -39,6 +39,31 @@ structure Wr where
   replaced : Option BPath := none
   deriving Repr
 
+/-- program counter of a `get_opts` call (get / head / ranged get with any preconditions):
+resolve → check → fetch payload → (payload gone) re-resolve → re-check → fetch -/
+inductive RdPc where
+  | init
+  /-- `get_meta` answered `d` (from the cache or from the backend) -/
+  | resolved (d : Doc)
+  /-- `check_get_preconditions` passed on `d`; `o'` = what is forwarded to the backend -/
+  | checked (d : Doc) (o' : GetOpts)
+  /-- the payload `d` pointed at was gone; `o1` = the options as the first check left them -/
+  | retry (o1 : GetOpts)
+  /-- `refresh_meta` answered `d` -/
+  | resolved2 (d : Doc) (o1 : GetOpts)
+  | checked2 (d : Doc) (o' : GetOpts)
+  | done (r : Out)
+  deriving DecidableEq, Repr
+
+/-- one in-process reader call -/
+structure Rd where
+  k : Path
+  o : GetOpts := {}
+  /-- the document the metadata cache holds for `k` when the call starts, if any -/
+  cached : Option Doc := none
+  pc : RdPc := .init
+  deriving Repr
+
 inductive GcPc where
   | idle
   /-- candidates collected (mark + sweep listings), processing not started / between candidates -/
@@ -59,6 +84,10 @@ structure Cfg where
   /-- answers of the collector's re-read of commit points, per key — consulted only when the source
   re-reads once per key instead of once per candidate (`Gen.SidecarOrder.gcRecheckPerCandidate`) -/
   gcMemo : List (Path × Option PayloadRef) := []
+  rs : List Rd := []
+  /-- ghost: every commit (key, commit point, payload bytes) the run has seen — the commits readable at
+  the start and every pointer switch since -/
+  hist : List (Path × Doc × Bytes) := []
   deriving Repr
 
 inductive WAct where
@@ -72,6 +101,8 @@ inductive Choice where
   | gcList (cands : List BPath)
   /-- the collector performs its next check / delete -/
   | gcStep
+  /-- reader `i` performs its next action -/
+  | r (i : Nat)
   | tick
   deriving Repr
 
@@ -123,7 +154,8 @@ def wrStep (c : Cfg) (t : Wr) : WAct → Option (Cfg × Wr)
         match t.g, t.wbytes with
         | some g, some b =>
             let d : Doc := { size := b.length, etag := some (.put (g.id + 1) b), gen := some g, time := some c.clock }
-            some ({ c with be := aset c.be (.mt t.k) ⟨.doc d, c.clock⟩, locks := c.locks.erase t.k }, { t with committed := true })
+            some ({ c with be := aset c.be (.mt t.k) ⟨.doc d, c.clock⟩, locks := c.locks.erase t.k,
+                           hist := (t.k, d, b) :: c.hist }, { t with committed := true })
         | _, _ => none
   | .reclaim =>
       if !t.committed || t.reclaimed then none
@@ -173,6 +205,45 @@ def gcRecheck (c : Cfg) (p : BPath) : Bool × List (Path × Option PayloadRef) :
     | some r => (refMatches r p, c.gcMemo)
     | none => let r := markRef c.be (keyOfPath p); (refMatches r p, aset c.gcMemo (keyOfPath p) r)
 
+def docNow (be : Backend) (k : Path) : Option Doc :=
+  match aget be (.mt k) with
+  | some ⟨.doc d, _⟩ => some d
+  | _ => none
+
+def rdCheck (t : Rd) (d : Doc) (next : Doc → GetOpts → RdPc) : RdPc :=
+  match checkGetPreconditions t.o d.etag (logicalLM d) with
+  | .error e => .done (.err e)
+  | .ok o' => next d o'
+
+/-- the next action of a reader (its only effect is on its own program counter) -/
+def rdStep (c : Cfg) (t : Rd) : Rd :=
+  match t.pc with
+  | .init =>
+      match t.cached with
+      | some d => { t with pc := .resolved d }
+      | none =>
+          match docNow c.be t.k with
+          | some d => { t with pc := .resolved d }
+          | none => { t with pc := .done (.err .notFound) }
+  | .resolved d => { t with pc := rdCheck t d .checked }
+  | .checked d o' =>
+      match getFetch (decide (c.flavor = .encrypted)) c.be t.k d o' with
+      | .done r => { t with pc := .done (outOf r) }
+      | .stale => { t with pc := .retry o' }
+  | .retry o1 =>
+      match docNow c.be t.k with
+      | some d => { t with pc := .resolved2 d o1 }
+      | none => { t with pc := .done (.err .notFound) }
+  | .resolved2 d o1 =>
+      -- are the preconditions evaluated again on the re-resolved document? (read from the source)
+      if Gen.SidecarOrder.getRecheckInRetry c.flavor then { t with pc := rdCheck t d .checked2 }
+      else { t with pc := .checked2 d o1 }
+  | .checked2 d o' =>
+      match getFetch (decide (c.flavor = .encrypted)) c.be t.k d o' with
+      | .done r => { t with pc := .done (outOf r) }
+      | .stale => { t with pc := .done (.err .notFound) }
+  | .done _ => t
+
 /-- the collector's next check on candidate `p` (the check at position `stage` of the generated order) -/
 def gcCheck (c : Cfg) (p : BPath) (stage : Nat) (rest : List BPath) : Cfg :=
   match Gen.SidecarOrder.gcCandidateOrder[stage]? with
@@ -207,6 +278,10 @@ def step (c : Cfg) : Choice → Cfg
       | .sweeping [] => { c with gc := .idle }
       | .sweeping (p :: rest) => { c with gc := .cand p 0 rest }
       | .cand p stage rest => gcCheck c p stage rest
+  | .r i =>
+      match c.rs[i]? with
+      | none => c
+      | some t => { c with rs := c.rs.set i (rdStep c t) }
   | .tick => { c with clock := c.clock + 1 }
 
 def runSchedule (c : Cfg) (s : List Choice) : Cfg := s.foldl step c
